@@ -49,6 +49,7 @@ Section WithSig.
   Lemma fresh_justified r t idx : wf_req r -> fresh r = GOk Secure t idx -> justified_req r t idx.
   Proof.
     intros (H1 & H2 & H3 & H4) F. unfold justified_req. eapply default_rrset_justified; eauto.
+    apply rrset_verdict_secure. exact F.
   Qed.
 
   (* FULL: in every history from an empty cache, a Secure verdict at step j is justified by the
